@@ -68,6 +68,36 @@ inductive ArgOutcome where
   | done (r : CliResult)           -- --help, --version or a usage error
   | plan (p : CliPlan)
 
+/-- which branch of the option loop an argument takes -/
+inductive Opt where
+  | help | version | lint | output | pass | prepend | prependFile | noRimurc | safeMode | htmlReplacement
+  | stylingValue | stylingFlag | layout | styled | other
+deriving Repr, DecidableEq, Inhabited
+
+def optOf (arg : Str) : Opt :=
+  let a := String.ofList arg
+  if a == "--help" || a == "-h" then .help
+  else if a == "--version" then .version
+  else if a == "--lint" || a == "-l" then .lint
+  else if a == "--output" || a == "-o" then .output
+  else if a == "--pass" then .pass
+  else if a == "--prepend" || a == "-p" then .prepend
+  else if a == "--prepend-file" then .prependFile
+  else if a == "--no-rimurc" then .noRimurc
+  else if a == "--safe-mode" || a == "--safeMode" then .safeMode
+  else if a == "--html-replacement" || a == "--htmlReplacement" then .htmlReplacement
+  else if stylingOptions.contains arg then
+    (if a == "--lang" || a == "--title" || a == "--theme" then .stylingValue else .stylingFlag)
+  else if a == "--layout" || a == "--styled-name" then .layout
+  else if a == "--styled" || a == "-s" then .styled
+  else .other
+
+/-- `popArg`: the value of an option, or the usage error -/
+def popArg (arg : Str) (rest : List Str) (k : Str → List Str → ArgOutcome) : ArgOutcome :=
+  match rest with
+  | [] => .done (die ("missing ".toList ++ arg ++ " option value".toList))
+  | v :: rest' => k v rest'
+
 /-- The option loop of `main`. -/
 def parseArgs (env : CliEnv) : Nat → List Str → CliPlan → ArgOutcome
   | 0, _, p => .plan p
@@ -75,52 +105,42 @@ def parseArgs (env : CliEnv) : Nat → List Str → CliPlan → ArgOutcome
     match args with
     | [] => .plan p
     | arg :: rest =>
-      let a := String.ofList arg
-      let popArg (k : Str → List Str → ArgOutcome) : ArgOutcome :=
-        match rest with
-        | [] => .done (die ("missing ".toList ++ arg ++ " option value".toList))
-        | v :: rest' => k v rest'
-      if a == "--help" || a == "-h" then
+      match optOf arg with
+      | .help =>
         match lookupStr "manpage.txt".toList env.resources with
         | none => .done (die "missing resource: manpage.txt".toList)
         | some man =>
           let man := Gen.P.rimuc_main_0.sub man fun _ => "rimupy".toList
           .done { exit := 0, stdout := "\n".toList ++ man ++ "\n".toList, stderr := [] }
-      else if a == "--version" then
-        .done { exit := 0, stdout := Gen.cliVersion ++ "\n".toList, stderr := [] }
-      else if a == "--lint" || a == "-l" then parseArgs env fuel rest p
-      else if a == "--output" || a == "-o" then
-        popArg fun v r => parseArgs env fuel r { p with outfile := v }
-      else if a == "--pass" then parseArgs env fuel rest { p with passThrough := true }
-      else if a == "--prepend" || a == "-p" then
-        popArg fun v r => parseArgs env fuel r { p with prepend := p.prepend ++ v ++ "\n".toList }
-      else if a == "--prepend-file" then
-        popArg fun v r => parseArgs env fuel r { p with prependFiles := p.prependFiles ++ [v] }
-      else if a == "--no-rimurc" then parseArgs env fuel rest { p with noRimurc := true }
-      else if a == "--safe-mode" || a == "--safeMode" then
-        popArg fun v r =>
+      | .version => .done { exit := 0, stdout := Gen.cliVersion ++ "\n".toList, stderr := [] }
+      | .lint => parseArgs env fuel rest p
+      | .output => popArg arg rest fun v r => parseArgs env fuel r { p with outfile := v }
+      | .pass => parseArgs env fuel rest { p with passThrough := true }
+      | .prepend => popArg arg rest fun v r => parseArgs env fuel r { p with prepend := p.prepend ++ v ++ "\n".toList }
+      | .prependFile => popArg arg rest fun v r => parseArgs env fuel r { p with prependFiles := p.prependFiles ++ [v] }
+      | .noRimurc => parseArgs env fuel rest { p with noRimurc := true }
+      | .safeMode =>
+        popArg arg rest fun v r =>
           match pyInt v with
           | some n =>
             if n < 0 || n > 15 then .done (die ("illegal --safe-mode option value: ".toList ++ v))
             else parseArgs env fuel r { p with safeMode := some n }
           | none => .done (die ("illegal --safe-mode option value: ".toList ++ v))
-      else if a == "--html-replacement" || a == "--htmlReplacement" then
-        popArg fun v r => parseArgs env fuel r { p with htmlReplacement := some v }
-      else if stylingOptions.contains arg then
-        if a == "--lang" || a == "--title" || a == "--theme" then
-          popArg fun v r =>
-            parseArgs env fuel r { p with prepend := p.prepend ++ "{".toList ++ arg ++ "}='".toList ++ v ++ "'\n".toList }
-        else
-          parseArgs env fuel rest { p with prepend := p.prepend ++ "{".toList ++ arg ++ "}='true'\n".toList }
-      else if a == "--layout" || a == "--styled-name" then
-        popArg fun v r =>
+      | .htmlReplacement => popArg arg rest fun v r => parseArgs env fuel r { p with htmlReplacement := some v }
+      | .stylingValue =>
+        popArg arg rest fun v r =>
+          parseArgs env fuel r { p with prepend := p.prepend ++ "{".toList ++ arg ++ "}='".toList ++ v ++ "'\n".toList }
+      | .stylingFlag =>
+        parseArgs env fuel rest { p with prepend := p.prepend ++ "{".toList ++ arg ++ "}='true'\n".toList }
+      | .layout =>
+        popArg arg rest fun v r =>
           if !layouts.contains v then .done (die ("illegal --layout: ".toList ++ v))
           else parseArgs env fuel r { p with layout := v, prepend := p.prepend ++ "{--header-ids}='true'\n".toList }
-      else if a == "--styled" || a == "-s" then
+      | .styled =>
         parseArgs env fuel rest
           { p with prepend := p.prepend ++ "{--header-ids}='true'\n".toList ++ "{--no-toc}='true'\n".toList,
                    layout := "sequel".toList }
-      else .plan { p with files := arg :: rest }
+      | .other => .plan { p with files := arg :: rest }
 
 inductive Input where
   | resource (name : Str)
@@ -132,27 +152,42 @@ deriving Repr, DecidableEq, Inhabited
 def resourceTag : Str := "resource:".toList
 def prependTag : Str := "--prepend options".toList
 
-/-- The ordered list of inputs `main` renders (after the option loop). -/
-def planInputs (env : CliEnv) (p : CliPlan) : List Input × Str :=
+/-- What one entry of `files` is: a resource, stdin, the prepend text, or a file; a file is trusted exactly when
+    its position is among the leading prepended ones (`idx < trusted`). -/
+def classifyInput (trusted idx : Nat) (name : Str) : Input :=
+  if startsWith name resourceTag then .resource (name.drop resourceTag.length)
+  else if name == "-".toList then .stdin
+  else if name == prependTag then .prepend
+  else .file name (idx < trusted)
+
+/-- the prepended (trusted) entries: `~/.rimurc` if it exists and is wanted, the `--prepend-file`s, the prepend text -/
+def prependedEntries (env : CliEnv) (p : CliPlan) : List Str :=
+  let pre0 := if !p.noRimurc && (lookupStr env.rimurcPath env.files).isSome then env.rimurcPath :: p.prependFiles
+    else p.prependFiles
+  if p.prepend != [] then pre0 ++ [prependTag] else pre0
+
+/-- the named entries with the layout envelope -/
+def namedEntries (p : CliPlan) : List Str :=
   let files0 := if p.files.isEmpty then ["-".toList] else p.files
+  if p.layout != [] then
+    [resourceTag ++ p.layout ++ "-header.rmu".toList] ++ files0 ++ [resourceTag ++ p.layout ++ "-footer.rmu".toList]
+  else files0
+
+/-- The ordered list of inputs `main` renders (after the option loop), and the output file name. -/
+def planInputs (env : CliEnv) (p : CliPlan) : List Input × Str :=
   let outfile :=
     if p.files.length == 1 && p.layout != [] && p.files.head? != some "-".toList && p.outfile.isEmpty then
       (splitext (p.files.headD [])).1 ++ ".html".toList
     else p.outfile
-  let files1 := if p.layout != [] then
-      [resourceTag ++ p.layout ++ "-header.rmu".toList] ++ files0 ++ [resourceTag ++ p.layout ++ "-footer.rmu".toList]
-    else files0
-  let pre0 := if !p.noRimurc && (lookupStr env.rimurcPath env.files).isSome then env.rimurcPath :: p.prependFiles
-    else p.prependFiles
-  let pre := if p.prepend != [] then pre0 ++ [prependTag] else pre0
-  let trusted := pre.length
-  let all := pre ++ files1
-  let classify (idx : Nat) (name : Str) : Input :=
-    if startsWith name resourceTag then .resource (name.drop resourceTag.length)
-    else if name == "-".toList then .stdin
-    else if name == prependTag then .prepend
-    else .file name (idx < trusted)
-  ((List.range all.length).zip all |>.map fun (i, n) => classify i n, outfile)
+  let pre := prependedEntries env p
+  let all := pre ++ namedEntries p
+  (((List.range all.length).zip all).map fun (i, n) => classifyInput pre.length i n, outfile)
+
+/-- the safe mode an input is rendered under: the requested one for named files and stdin, 0 for everything else -/
+def inputMode (p : CliPlan) : Input → PyVal
+  | .file _ false => (match p.safeMode with | some n => .int n | none => .none)
+  | .stdin => (match p.safeMode with | some n => .int n | none => .none)
+  | _ => .int 0
 
 def formatMessage (infile : Str) (text : Str) : Str :=
   let msg := "error: ".toList ++ infile ++ ": ".toList ++ text
@@ -168,18 +203,18 @@ structure LoopState where
 /-- One iteration of the `for infile in files` loop.  `none` = `die`. -/
 def renderInput (renv : Env) (fuel : Nat) (env : CliEnv) (p : CliPlan) (st : LoopState) (inp : Input) :
     Except CliResult LoopState := do
-  let reqMode : PyVal := match p.safeMode with | some n => .int n | none => .none
-  let (name, source, mode, ext) ← match inp with
+  let mode := inputMode p inp
+  let (name, source, ext) ← match inp with
     | .resource n =>
       match lookupStr n env.resources with
-      | some s => pure (n, s, PyVal.int 0, ([] : Str))
+      | some s => pure (n, s, ([] : Str))
       | none => throw { die [] with stderr := st.stderr ++ "missing resource: ".toList ++ n ++ "\n".toList }
-    | .stdin => pure ("-".toList, (if st.stdinRead then [] else env.stdin), reqMode, [])
-    | .prepend => pure (prependTag, p.prepend, PyVal.int 0, [])
-    | .file n trusted =>
+    | .stdin => pure ("-".toList, (if st.stdinRead then [] else env.stdin), [])
+    | .prepend => pure (prependTag, p.prepend, [])
+    | .file n _ =>
       match lookupStr n env.files with
       | none => throw { die ("source file does not exist: ".toList ++ n) with stderr := st.stderr ++ "source file does not exist: ".toList ++ n ++ "\n".toList }
-      | some s => pure (n, s, (if trusted then PyVal.int 0 else reqMode), (splitext n).2)
+      | some s => pure (n, s, (splitext n).2)
   let st := if inp == .stdin then { st with stdinRead := true } else st
   let skip := ext == ".html".toList || (p.passThrough && inp == .stdin)
   let (rendered, st) ←
